@@ -163,6 +163,11 @@ def check_stack(V, c, t):
         want = None if last is None else tag_name(tags['F%d' % last], blocks['F%d' % last][ti][0])
         if wtag != want:
             V.violation('tag-is-not-that-of-the-last-covering-feature', dict(detail, tag=wtag, expected=want))
+        elif last is not None:
+            # ... and that tag is the one the file declares: its "tag" entry or, documented default, the model name
+            declared = feats[last].get('tag') or feats[last]['model']
+            if wtag != declared:
+                V.violation('tag-name-is-not-the-declared-tag-or-the-model-name:%s' % feats[last]['model'], dict(detail, tag=wtag, declared=declared))
         # ---- locality: deleting / moving non covering features changes nothing
         for vi, (vk, S, order) in enumerate(t['variants']):
             if any(covers[i] for i in S):
